@@ -78,9 +78,11 @@ TNext ==
                 LET B == {i \in 1..Len(ev.obs) : ev.obs[i].k = k /\ ~ObsOk(ev.rows, ev.obs[i])}
                 IN B # {} => PrintT(<<"REJECT", tid, l, "obs_" \o k, CHOOSE i \in B : \A j \in B : i <= j>>)
           /\ rows' = ev.rows /\ ver' = ev.ver
-          /\ given' = (IF sw /\ parked.has THEN parked.given ELSE (given \/ ev.res = <<"grid">>))
+          /\ given' = (IF sw /\ parked.has THEN parked.given ELSE given)
           /\ parked' = (IF sw /\ parked.has THEN ParkOf(Cur)
-                        ELSE IF ~sw /\ ev.res = <<"grid">> THEN ParkOf(Cur) ELSE parked)
+                        ELSE IF ~sw /\ ev.res = <<"grid">> THEN ParkOf(Cur)
+                        ELSE IF ~sw /\ ev.res = <<"copy">> /\ ev.name = "copy" /\ ev.how # "shallow" THEN ParkOf(Cur)
+                        ELSE parked)
           /\ op' = [name |-> ev.name] /\ res' = ev.res
           /\ l' = l + 1
           /\ nrej' = nrej + (IF rej THEN 1 ELSE 0)
